@@ -134,9 +134,18 @@ impl<'c> W<'c> {
     /// returns (start, end) of the text run as the span convention of xot defines it:
     /// from the start of the first part's content to the end of the last part's content
     fn text(&mut self, s: &str) -> (usize, usize) {
+        // an empty CDATA section contributes no character data and is not a part of the run:
+        // none / before the run / after it / after its first character
+        let empty = self.ch.pick(4, "text:empty-cdata");
+        if empty == 1 {
+            self.out.push_str("<![CDATA[]]>");
+        }
         let st = self.out.len();
-        for c in s.chars() {
+        for (i, c) in s.chars().enumerate() {
             self.text_char(c);
+            if empty == 3 && i == 0 && s.chars().count() > 1 {
+                self.out.push_str("<![CDATA[]]>");
+            }
         }
         let raw = &self.out[st..];
         let mut start = st;
@@ -146,6 +155,9 @@ impl<'c> W<'c> {
         }
         if raw.ends_with("]]>") {
             end -= 3;
+        }
+        if empty == 2 || (empty == 3 && s.chars().count() <= 1) {
+            self.out.push_str("<![CDATA[]]>");
         }
         (start, end)
     }
@@ -302,13 +314,18 @@ impl<'c> W<'c> {
         self.out.push_str(pre);
         // drawn unconditionally: the set of choice points must not depend on the choices
         let end_ws = ["", " "][self.ch.pick(2, "ws-in-end-tag")];
-        if e.ch.is_empty() && self.ch.pick(2, "empty-element-form") == 0 {
+        let form = if e.ch.is_empty() { self.ch.pick(3, "empty-element-form") } else { 1 };
+        if e.ch.is_empty() && form == 0 {
             let st = self.out.len();
             self.out.push_str("/>");
             self.spans.push(SpanRec { path: path.clone(), what: SpanWhat::ElementEnd, start: st, end: self.out.len() });
             return;
         }
         self.out.push('>');
+        if form == 2 {
+            // no character data at all: the element stays childless
+            self.out.push_str("<![CDATA[]]>");
+        }
         for (i, c) in e.ch.iter().enumerate() {
             path.push(i);
             self.node(c, &scope, path);
